@@ -64,6 +64,25 @@ CHECKS = {
                      "Conformance: C10_Exact (message identity, full byte equality of the re-encoded message, slices contiguous and complete), C10_NotBefore, C10_Abort, "
                      "C10_Contradiction, C11_Routing on every recv result.",
                 note="trusted: message identification by message-id + full re-encoding comparison in the harness"),
+    "C02": dict(technique="TLC model check of sender-side settlement under arbitrary disposition histories (Settle.tla, safety + echo liveness); TLC-enumerated disposition / batchable-send / await scripts over two links (SettleGen.tla) and receiver-side disposal scripts (RecvGen.tla) executed lock-step; traces validated by the TLA+ observer",
+                design="4/C02",
+                text="MC: every send resolves at most once, with the first terminal state reported for its own delivery-id (pre-settled: accepted at once); settled deliveries leave the "
+                     "unsettled map; in mode second every terminal unsettled disposition is eventually echoed. Conformance: C02_OwnOutcome on every send / await result, "
+                     "C02_Echo_Q at quiescence, C02_NoEchoForUnknown / C02_EchoSettles on the EUT's sender-role dispositions, C02_RangeExact / C02_OwnState on its receiver-role "
+                     "dispositions (ranges cover exactly deliveries the application disposed that way; unsettled in mode second).",
+                note="the 'neither side retains the delivery' clause is checked on the model only (no accessor for the unsettled maps is used yet)"),
+    "C11": dict(technique="TLC model check of handle allocation / release and serial delivery-ids (Ids.tla); lifecycle, link-split and receive scripts (LifeGen, SessGen, RecvGen) executed lock-step; traces validated by the TLA+ observer",
+                design="4/C11",
+                text="MC: smallest-free allocation with release at the endpoint's own detach keeps handles unique, names attached once, frames only on held handles, delivery-ids "
+                     "serially increasing across wrap-around and continuation ids equal to the delivery's. Conformance: C11_ChannelUnique, C11_HandleUnique, C11_NameOnce, "
+                     "C11_DeliveryIdIncreasing, C11_ContinuationId on every EUT frame, C11_Routing on every recv result, with sparse peer handles (70000+) and re-attach after detach.",
+                note="peer-chosen channel / handle numbers come from the script constants, not from an exhaustive range"),
+    "C13": dict(technique="TLC model check of the session / link handshake state machines against an arbitrary peer and application (LinkLife.tla, safety + end-reply liveness); TLC-enumerated lifecycle macro-event scripts (LifeGen.tla) executed lock-step; traces validated by the TLA+ observer",
+                design="4/C13",
+                text="MC: one end at most and nothing after it, detaches never outnumber attaches, attach only when detached, peer end ~> end. Conformance: C13_EndAtMostOnce, "
+                     "C13_NothingAfterEnd, C13_NothingAfterDetach, C13_DetachAtMostOncePerAttach, C13_DetachInKind per frame; C13_EndReply_Q, C13_DetachReply_Q at quiescence; "
+                     "C13_TeardownWaits, C13_PeerError on teardown / data-path results; C13_Flush when a detach / end overtakes queued sends.",
+                note="client side only so far; listener-side lifecycles are exercised through the C12 and RecvGen scripts"),
     "C12": dict(technique="TLC model check of the 2.4.6 connection state machine (ConnLife.tla, safety + leads-to under fairness); TLC-enumerated event scripts (ConnGen.tla) executed lock-step against the real client and listener; recorded traces validated by the TLA+ observer (Endpoint.tla / EndpointTrace.tla)",
                 design="4/C12",
                 text="MC: header first, one open before anything else, at most one close, nothing after it, no action on frames outside OPENED, peer close ~> close "
